@@ -150,3 +150,140 @@ def replay_of(m, trace_path):
     return {"programme": [show_argv(e["argv"]) for e in prog],
             "programme_bytes": [e["argv"] for e in prog],
             "observed_reply": m["got"], "model_outcomes": m["exp"]}
+
+
+# ------------------------------------------------------------------ B1: MC edge tables -> walker
+
+def run_b1(module, cfg, workers=16, heap="6g", timeout=900, tour_args=()):
+    """Run TLC on an MC_* instance with edge emission and pipe the table into the Go walker.
+    Returns dict(failures=[...], summary={...}, tlc=dict(generated, distinct, wall))."""
+    tour = build_tool("tour")
+    wd = common.scratch("b1-")
+    import shutil
+    for f in os.listdir(common.SPEC):
+        if f.endswith(".tla") or f.endswith(".cfg"):
+            shutil.copy(os.path.join(common.SPEC, f), wd)
+    meta = os.path.join(wd, "meta")
+    tlc_cmd = ["java", "-Xmx" + heap, "-Xss64m", "-XX:+UseParallelGC", "-cp", common.TLA_CP, "tlc2.TLC", "-workers", str(workers),
+               "-metadir", meta, "-noGenerateSpecTE", "-deadlock", "-config", cfg, module + ".tla"]
+    t0 = time.time()
+    tlc_log = os.path.join(wd, "tlc.log")
+    # TLC stdout: EDGE/INIT/SETUP lines go to the walker, everything else to tlc.log
+    tlc = subprocess.Popen(tlc_cmd, cwd=wd, env=common.env(), stdout=subprocess.PIPE, stderr=subprocess.STDOUT)
+    walker = subprocess.Popen([tour] + list(tour_args), stdin=subprocess.PIPE, stdout=subprocess.PIPE, stderr=subprocess.PIPE)
+    import threading
+    wout = []
+
+    def drain():
+        for line in walker.stdout:
+            wout.append(line.decode("utf-8", "replace"))
+    th = threading.Thread(target=drain)
+    th.start()
+    with open(tlc_log, "wb") as lg:
+        for line in tlc.stdout:
+            if line.startswith(b'"'):
+                try:
+                    walker.stdin.write(line)
+                except BrokenPipeError:
+                    break
+            else:
+                lg.write(line)
+            if time.time() - t0 > timeout:
+                tlc.kill()
+                walker.kill()
+                common.die_infra("B1 timed out for " + cfg)
+    tlc.wait()
+    tlc_wall = time.time() - t0
+    try:
+        walker.stdin.close()
+    except Exception:
+        pass
+    walker.wait()
+    th.join()
+    log = open(tlc_log, errors="replace").read()
+    m = None
+    for m in common._RE_STATES.finditer(log):
+        pass
+    if tlc.returncode != 0 or not m or "Model checking completed. No error" not in log:
+        common.die_infra("TLC failed on %s/%s (rc=%s):\n%s" % (module, cfg, tlc.returncode, log[-3000:]))
+    if walker.returncode != 0:
+        common.die_infra("walker failed on %s (rc=%s): %s" % (cfg, walker.returncode, walker.stderr.read().decode()[-2000:]))
+    failures, summary = [], None
+    for line in wout:
+        if line.startswith("SUMMARY "):
+            summary = json.loads(line[8:])
+        elif line.strip():
+            failures.append(json.loads(line))
+    if summary is None:
+        common.die_infra("walker printed no summary for " + cfg)
+    return {"failures": failures, "summary": summary,
+            "tlc": {"generated": int(m.group(1)), "distinct": int(m.group(2)), "wall": tlc_wall}}
+
+
+def b1_signature(f):
+    return {"branch": f["branch"], "kind": {"reply": "reply-kind" if f["detail"] != "value" else "reply-value"}.get(f["kind"], f["kind"]),
+            "detail": f["detail"] if f["kind"] != "state" else ""}
+
+
+def family_check(prop, tier, b1_instances, b2_families, level_text, assumptions, b2_progs, b2_steps=30, label_filter=None):
+    """Generic check for a sequential-meaning property: B1 tours of the listed MC instances + B2 random
+    programmes of the listed families.  label_filter(branch) -> True if a mismatch with that model branch
+    belongs to this property (others are reported by the property that owns the command)."""
+    v = common.Verdict(prop)
+    seed = common.seed()
+    cov = {"states": 0, "transitions": 0, "traces_validated_against_impl": 0, "samples": [], "b1": {}, "b2": {},
+           "edges_replayed_on_impl": 0, "labels_passed": 0, "labels_total": 0}
+    mine = label_filter or (lambda b: True)
+    foreign = {}
+    for (module, cfg) in b1_instances:
+        r = run_b1(module, cfg)
+        s = r["summary"]
+        cov["states"] += r["tlc"]["distinct"]
+        cov["transitions"] += r["tlc"]["generated"]
+        cov["edges_replayed_on_impl"] += s["edges_tested"]
+        cov["labels_passed"] += s["labels_passed"]
+        cov["labels_total"] += s["labels_total"]
+        cov["b1"][cfg] = {"tlc_states": r["tlc"]["distinct"], "tlc_transitions": r["tlc"]["generated"], "tlc_wall_s": round(r["tlc"]["wall"], 1),
+                          "edges_tested": s["edges_tested"], "edges_failed": s["edges_failed"], "states_reached": s["states_reached"],
+                          "labels_passed": s["labels_passed"], "labels_total": s["labels_total"], "impl_execs": s["execs"]}
+        for f in r["failures"]:
+            sig = b1_signature(f)
+            if not mine(sig["branch"]):
+                foreign[sig["branch"]] = foreign.get(sig["branch"], 0) + 1
+                continue
+            v.report(sig, {"instance": cfg, "path": f.get("path"), "cmd": f["cmd"], "got": f["got"], "expected": f["expected"],
+                           "state_diff": f.get("state_diff")},
+                     what="%s: after %s, %s -> %s %s" % (cfg, f.get("path"), f["cmd"], show_reply(f["got"]), f.get("state_diff") or ""))
+    for fam in b2_families:
+        r = run_b2(fam, b2_progs, b2_steps, seed, nproc=8)
+        cov["traces_validated_against_impl"] += r["programmes"]
+        cov["b2"][fam] = {"programmes": r["programmes"], "events": r["events"], "labels": len(r["labels"]), "mismatching_programmes": len(r["mismatches"])}
+        for m, path in r["mismatches"]:
+            sig = signature(m)
+            if not mine(sig["branch"]):
+                foreign[sig["branch"]] = foreign.get(sig["branch"], 0) + 1
+                continue
+            v.report(sig, replay_of(m, path), what=explain(m, path))
+        if r["programmes"] and not cov["samples"]:
+            pass
+        # one sample programme (first of the first file)
+        if len(cov["samples"]) < 3:
+            d = [f for f in os.listdir(os.path.dirname(path))] if r["mismatches"] else []
+    cov["foreign_mismatches_left_to_owner"] = foreign
+    cov["samples"] = sample_cases(b1_instances, b2_families, seed)
+    v.finish(tier, "model_checking", cov, assumptions)
+
+
+def sample_cases(b1_instances, b2_families, seed):
+    """A few actual cases written out for the evidence file."""
+    out = []
+    gen = build_tool("ksgen")
+    d = common.scratch("sample-")
+    for fam in b2_families[:2]:
+        path = os.path.join(d, fam + ".ndjson")
+        subprocess.run([gen, "-family", fam, "-seed", str(seed), "-progs", "1", "-steps", "8", "-out", path], stdout=subprocess.DEVNULL)
+        tr = load_trace(path)
+        out.append({"kind": "B2 programme (" + fam + ")", "commands": ["%s -> %s" % (show_argv(e["argv"]), show_reply(e["reply"])) for e in tr if e["ev"] != "reset"][:14]})
+    for (module, cfg) in b1_instances[:2]:
+        out.append({"kind": "B1 instance", "module": module, "cfg": cfg})
+    return out
